@@ -70,6 +70,11 @@ def run (w : Nat) (decodable : Frame → Bool) (hist : List Arrival) : List Grou
   let r := runG w [] hist
   (r.1, records decodable r.2)
 
+/-- With a flush at end of input (decode1090): the groups still open leave too, in the same order. -/
+def runFlush (w : Nat) (decodable : Frame → Bool) (hist : List Arrival) : List Record :=
+  let r := runG w [] hist
+  records decodable (r.2 ++ sortBy r.1)
+
 /-! ### The clauses of the property, as predicates on (history, closed groups, open groups) -/
 
 /-- all members of a list of groups, group by group -/
